@@ -46,6 +46,7 @@ structure Sys where
   readWG : Nat
   nextConn : Nat
   ths : List Th
+  arrPending : Bool := false   -- the read loop is inside getConn with a new connection, holding connLock
 deriving Repr, DecidableEq
 
 def Sys.setPc (s : Sys) (t : Nat) (pc : Pc) : Sys :=
@@ -63,16 +64,28 @@ def Sys.cascade (s : Sys) : Sys :=
     s3
   else s
 
-/-- a datagram from a new remote arrives (the read loop's `getConn`) -/
-def Sys.arrive (s : Sys) (backlog : Nat) : Sys :=
-  if !s.accepting ∨ s.sockClosed ∨ s.acceptQ.length ≥ backlog then s
+/-- A datagram from a new remote arrives.  `getConn` takes `connLock`, checks that the listener is
+    still accepting (`arriveBegin`), and then — still holding the lock — counts the new connection
+    and queues it if the backlog has room (`arriveEnd`).  Other goroutines can run in between
+    (`Accept` takes no lock; the first step of `Close` needs none), but nobody who needs `connLock`. -/
+def Sys.arriveBegin (s : Sys) : Sys :=
+  if !s.accepting ∨ s.sockClosed ∨ s.arrPending then s else { s with arrPending := true }
+
+def Sys.arriveEnd (s : Sys) (backlog : Nat) : Sys :=
+  if !s.arrPending then s
   else
-    let c := s.nextConn
-    let s1 := { s with nextConn := c + 1, wg := s.wg + 1, table := s.table ++ [c] }
-    -- an acceptor blocked in the select takes it at once (oldest first)
-    match (s1.ths.zipIdx.find? (fun (e : Th × Nat) => e.1.pc = Pc.parkedSelect)).map (·.2) with
-    | some t => s1.setPc t (.done (.conn c))
-    | none => { s1 with acceptQ := s1.acceptQ ++ [c] }
+    let s0 := { s with arrPending := false }
+    if s0.acceptQ.length ≥ backlog then s0
+    else
+      let c := s0.nextConn
+      let s1 := { s0 with nextConn := c + 1, wg := s0.wg + 1, table := s0.table ++ [c] }
+      -- an acceptor blocked in the select takes it at once (oldest first)
+      match (s1.ths.zipIdx.find? (fun (e : Th × Nat) => e.1.pc = Pc.parkedSelect)).map (·.2) with
+      | some t => s1.setPc t (.done (.conn c))
+      | none => { s1 with acceptQ := s1.acceptQ ++ [c] }
+
+/-- an arrival nobody interleaves with -/
+def Sys.arrive (s : Sys) (backlog : Nat) : Sys := (s.arriveBegin).arriveEnd backlog
 
 def step (s : Sys) (t : Nat) : Sys :=
   match s.ths[t]? with
@@ -90,6 +103,7 @@ def step (s : Sys) (t : Nat) : Sys :=
                          ths := s.ths.map (fun (th : Th) => if th.pc = Pc.parkedSelect then { th with pc := Pc.done .err } else th) }
       s1.setPc t .atLock
     | .lcloser, .atLock =>
+      if s.arrPending then s else     -- blocked on connLock
       -- drain the backlog: every discarded connection gives its reference back; then the listener's own
       let discarded := s.acceptQ
       let s1 := { s with acceptQ := [], table := s.table.filter (fun c => !discarded.contains c),
@@ -102,6 +116,7 @@ def step (s : Sys) (t : Nat) : Sys :=
       -- connWG.Done(); close(c.doneCh)
       (({ s with wg := s.wg - 1 }).setPc t .atLock).cascade
     | .ccloser c, .atLock =>
+      if s.arrPending then s else     -- blocked on connLock
       let s1 := { s with table := s.table.filter (· ≠ c) }
       if s1.table.isEmpty ∧ !s1.accepting then s1.setPc t .atWait
       else s1.setPc t (.done .ok)
@@ -117,11 +132,11 @@ def Th.atYield (th : Th) : Bool := th.pc == .start || th.pc == .atSelect || th.p
 def Sys.init (accepted queued : Nat) (roles : List Role) : Sys :=
   { accepting := true, doneClosed := false, acceptQ := (List.range queued).map (· + accepted),
     table := List.range (accepted + queued), wg := 1 + accepted + queued, sockClosed := false, readWG := 2,
-    nextConn := accepted + queued, ths := roles.map (fun r => { role := r, pc := .start }) }
+    nextConn := accepted + queued, ths := roles.map (fun r => { role := r, pc := .start }), arrPending := false }
 
 /-- `grantErr t`: an acceptor whose select finds both a queued connection and the closed `doneCh`
     ready may take either; this is the other choice (it fails) -/
-inductive Op | grant (t : Nat) | grantErr (t : Nat) | arrive
+inductive Op | grant (t : Nat) | grantErr (t : Nat) | arrive | arriveBegin | arriveEnd
 deriving Repr, DecidableEq
 
 def stepOp (backlog : Nat) (s : Sys) : Op → Sys
@@ -131,6 +146,8 @@ def stepOp (backlog : Nat) (s : Sys) : Op → Sys
     | some th => if th.role = .acceptor ∧ th.pc = .atSelect ∧ s.doneClosed then s.setPc t (.done .err) else step s t
     | none => s
   | .arrive => s.arrive backlog
+  | .arriveBegin => s.arriveBegin
+  | .arriveEnd => s.arriveEnd backlog
 
 def run (backlog : Nat) (s : Sys) : List Op → Sys
   | [] => s
